@@ -18,13 +18,13 @@ def hp(fields, expl, extra_facts=(), **kw):
 
 
 PROPS = {
-    'C01': hp(['class', 'down', 'calls'], 'Lean: gate, protected_answers, excluded_passthrough, flag_origin, unauthenticated_redirects, and over every history of one browser: issued_only_by_login, forward_needs_login; tie: response class / downstream invocation / provider calls of every step; oracle: forwarded and not excluded => session valid by construction labels'),
+    'C01': hp(['class', 'down', 'calls'], 'Lean: gate, protected_answers, excluded_passthrough, flag_origin, unauthenticated_redirects, and over every history of one browser: issued_only_by_login, forward_needs_login; tie: response class / downstream invocation / provider calls of every step; oracle: forwarded and not excluded => session valid by construction labels', extra_facts=[]),
     'C03': hp(['class', 'calls', 'loc', 'jar'], 'Lean: callback_binds, csrf_after_step, and over every history: params_of_latest_initiation, callback_completes_latest (state, nonce and verifier of the most recent initiation); initiation_stores_what_it_sends, consumed, replay_rejected, no_session_on_error, login_completes; tie: class, token-endpoint calls (code, verifier symbol, redirect_uri), Location parameters and the whole jar view after every step; oracle: a session is established only with state/nonce/challenge of the most recent initiation of that browser, replays contact nobody, values never repeat', extra_facts=['randomFromCryptoRand', 'nonceBytes', 'verifierBytes']),
     'C04': hp(['class', 'calls', 'down'], 'Lean: session_continues (any later instance/time within the window), jar_fixed, session_continues_history (any sequence of later requests, each with its own instance), accept_interval; tie: class and provider calls; oracle: own untampered session with exp-now > grace and age <= 24 h must be forwarded with zero provider calls on every instance', extra_facts=['maxCookieSize', 'absoluteSessionTimeoutSec']),
     'C06': hp(['class', 'code', 'down'], 'Lean: isAllowedDomain_iff, rolesGate_iff, wrongly_typed_fails_closed, gate_every_forward, login_rejected; tie: class and status code; oracle: forwarded => reference domain predicate (regex + exact lookup) and reference role predicate on the token of this step'),
-    'C08': hp(['class', 'code', 'calls', 'jar', 'hdrs'], 'Lean: no_refresh_without_token, refresh_success, refresh_identity, refresh_grant_failed, refresh_bad_token_not_forwarded, refresh_never_5xx; tie: class, code, grant calls, stored tokens, forwarded identity; oracle: exactly one grant when due, forwarded identity and stored tokens from the new answer, 401/redirect and refresh-token removal on failure'),
+    'C08': hp(['class', 'code', 'calls', 'jar', 'hdrs'], 'Lean: no_refresh_without_token, refresh_success, refresh_identity, refresh_grant_failed, refresh_bad_token_not_forwarded, refresh_never_5xx; tie: class, code, grant calls, stored tokens, forwarded identity; oracle: exactly one grant when due, forwarded identity and stored tokens from the new answer, 401/redirect and refresh-token removal on failure', extra_facts=[]),
     'C10': hp(['class', 'hdrs'], 'Lean: identity_from_session, identity_noninterference, fixed/template names protected, forwarded_headers; tie: the identity and templated headers seen downstream; oracle: each such header is the derived value or absent'),
-    'C11': hp(['class', 'loc', 'jar', 'calls'], 'Lean: logout_ends, no_forward_until_new_login (any history after the logout), dead_stays_dead, logout_location, postLogout_resolution, cleared_is_anonymous; tie: class, Location, jar after logout; oracle: Location equals the reference construction, no request forwarded after logout until a new login'),
+    'C11': hp(['class', 'loc', 'jar', 'calls'], 'Lean: logout_ends, no_forward_until_new_login (any history after the logout), dead_stays_dead, logout_location, postLogout_resolution, cleared_is_anonymous; tie: class, Location, jar after logout; oracle: Location equals the reference construction, no request forwarded after logout until a new login', extra_facts=[]),
     'C15': hp(['class', 'loc'], 'Lean: stored_path_safe, initiate_stores_local, postLoginTarget_local, local_is_same_origin, callback_redirect_is_local, logout_target; tie: class and Location fields; oracle: origin of every Location as a browser resolves it is the request origin, the provider, or the configured post-logout URI', extra_facts=['maxIncomingPathLength']),
     'C16': hp(['class', 'code', 'body', 'msg'], 'Lean: escape_safe, escape_entities, errPage_html, errPage_kinds, callback_error_body; tie: status, body kind and the rendered message of the request-derived error text; oracle: markers in every client-controlled field never appear unescaped in HTML, JSON bodies parse and carry the message as a string, anything else is text/plain'),
     'C17': hp(['class', 'code', 'jar', 'calls'], 'Lean: only_callback_5xx_partial (K1 named), bad_is_absent, unusable_redirects, heals, stored_uri_bounded; tie: class, code, jar; oracle: no panic, no 5xx unless the scripted provider misbehaved, login from the resulting jar succeeds and the next request is forwarded', extra_facts=['maxIncomingPathLength', 'maxCookieSize', 'absoluteSessionTimeoutSec'], crash_is_violation=True),
@@ -135,3 +135,20 @@ PROPS = {
 
 for _k, _v in PROPS.items():
     _v.setdefault('nt_default', True)
+
+# the decision functions whose regenerated shape (facts skel_<f>, pinned in lean/Oidc/Shapes.lean) each property's theorems rest on
+SHAPES = {
+    'C01': ['ServeHTTP', 'isUserAuthenticated', 'processAuthorizedRequest'],
+    'C03': ['handleCallback', 'defaultInitiateAuthentication'],
+    'C06': ['processAuthorizedRequest', 'handleCallback', 'refreshToken'],
+    'C08': ['ServeHTTP', 'isUserAuthenticated', 'refreshToken'],
+    'C10': ['processAuthorizedRequest'],
+    'C11': ['ServeHTTP', 'handleLogout'],
+    'C15': ['handleCallback', 'handleLogout', 'defaultInitiateAuthentication'],
+    'C17': ['ServeHTTP', 'handleExpiredToken', 'defaultInitiateAuthentication'],
+    'C16': ['sendErrorResponse'],
+    'C20': ['ServeHTTP'],
+}
+for _k, _fs in SHAPES.items():
+    PROPS[_k]['facts'] = list(PROPS[_k].get('facts', [])) + ['skel_' + _f for _f in _fs]
+    PROPS[_k]['explanation'] += '; shape obligations: ' + ', '.join('Shape_' + _f for _f in _fs)
